@@ -78,6 +78,21 @@ def run(ck):
             rec.features = set(feats)
             corpus.append(rec)
         batches.append((-1, False, corpus, "\n".join(x.text() for x in corpus)))
+        # every typedef name of <stdint.h> / <stddef.h> / <sys/types.h> / <wchar.h> / <uchar.h> as a member (bindgen maps several of them to
+        # Rust primitives BY NAME, whatever the platform's definition): each between two chars so that width and alignment both show
+        names = ["int8_t", "int16_t", "int32_t", "int64_t", "uint8_t", "uint16_t", "uint32_t", "uint64_t", "int_least8_t", "int_least16_t", "int_least32_t", "int_least64_t",
+                 "uint_least8_t", "uint_least16_t", "uint_least32_t", "uint_least64_t", "int_fast8_t", "int_fast16_t", "int_fast32_t", "int_fast64_t", "uint_fast8_t", "uint_fast16_t",
+                 "uint_fast32_t", "uint_fast64_t", "intmax_t", "uintmax_t", "intptr_t", "uintptr_t", "size_t", "ssize_t", "ptrdiff_t", "wchar_t", "wint_t", "char16_t", "char32_t",
+                 "off_t", "time_t", "pid_t", "mode_t", "max_align_t", "sig_atomic_t"]
+        named = []
+        for i in range(0, len(names), 6):
+            rec = e2e.Rec("N%d" % (i // 6))
+            for j, n in enumerate(names[i:i + 6]):
+                rec.members.append({"name": "c%d" % j, "decl": "char c%d" % j, "bitfield": None, "anon": False})
+                rec.members.append({"name": "m%d" % j, "decl": "%s m%d" % (n, j), "bitfield": None, "anon": False})
+            rec.features = {"named-typedef"}
+            named.append(rec)
+        batches.append((-2, True, named, "#include <stdint.h>\n#include <stddef.h>\n#include <sys/types.h>\n#include <wchar.h>\n#include <uchar.h>\n#include <signal.h>\n" + "\n".join(x.text() for x in named)))
         for b in range(10 if quick else 150):
             plain = b % 5 != 4 and b % 5 != 3
             g = e2e.Gen(r, bitfields=not plain, attrs=not plain)
@@ -86,7 +101,7 @@ def run(ck):
 
         def one(bt):
             b, plain, recs, hdr = bt
-            return bt, measure(bindgen, tmp, "b%d" % (b if b >= 0 else 9999), recs, hdr, [], trace=True)
+            return bt, measure(bindgen, tmp, "b%d" % (b if b >= 0 else 9999 - b), recs, hdr, (["--allowlist-type", "N[0-9]+"] if b == -2 else []), trace=True)
         with ThreadPoolExecutor(max_workers=vlib.NCPU) as ex:
             results = list(ex.map(one, batches))
         traces = []
